@@ -93,6 +93,16 @@ def gen_case(rng, tier, direction=None, feats=None):
         if cands and rng.random() < (0.2 if contention else 0.6):
             t['parent'] = rng.choice(cands)
         tasks.append(t)
+    template = None
+    if rng.random() < 0.04 and not feats.get('no_template'):
+        # a shape random forests rarely produce: a milestone leaf M under a summary S that is rolled up first, and that is met again through
+        # a predecessor edge from a task T under a later summary Q which has a late predecessor of its own (P)
+        template = 'milestone-revisit'
+        mk = lambda i, parent, res, est, ms=False: {'id': i + 1, 'parent': parent, 'res': res, 'est': est, 'spent': None, 'ms': ms,
+                                                    'min_start': None, 'start': None, 'end': None, 'member': True}
+        tasks = [mk(0, None, None, None), mk(1, 0, 'a', rng.choice(['8', '4', '16'])), mk(2, 0, None, None, True),
+                 mk(3, None, 'b', rng.choice(['40', '24', '16'])), mk(4, None, None, None), mk(5, 4, rng.choice(['a', None]), rng.choice(['8', '2']))]
+        n = len(tasks)
     has_child = set(t['parent'] for t in tasks if t['parent'] is not None)
     bound = (BASE_DAY + rng.randrange(0, 10)) * DAY_US + rng.choice([0, 0, 0, 9 * H, 13 * H + H // 2, ODD])
     if d == 'bwd':
@@ -135,7 +145,9 @@ def gen_case(rng, tier, direction=None, feats=None):
             n_out += 1
     links = []
     total = len(tasks)
-    summary_links = rng.random() < 0.55
+    if template == 'milestone-revisit':
+        links = [[1, 2], [2, 5], [3, 4]]
+    summary_links = rng.random() < 0.55 or template is not None
     for _ in range(rng.randrange(0, n + 3)):
         a = rng.randrange(total)
         b = rng.randrange(n)
@@ -551,7 +563,7 @@ MON_OF = {
     'C14': ['c14Outcome', 'c14Diagnosed', 'c14DeadResource'],
     'C08': ['c08NoIdle', 'c08Encode', 'c08Order', 'c08Removal'],
     'C09': ['c09Deadline', 'c09Deps', 'c09LatePacked', 'c09Encode'],
-    'C06': ['pure', 'separate', 'structure', 'datesPresent', 'repeatSameObject', 'repeatFresh', 'clockIndep'],
+    'C06': ['pure', 'separate', 'structure', 'datesPresent', 'repeatSameObject', 'repeatFresh', 'clockIndep', 'schedulableReturns'],
 }
 # hypotheses of the proved `_partial` theorems, per failing clause (a failure outside them is a finding candidate)
 HYP_OF = {
@@ -628,6 +640,11 @@ def judge(prop, case, rec, out):
         mon['c14DeadResource'] = (not dead) or obs['out'] == 'runtime'
     if prop == 'C06':
         mon = {'pure': rec['pure']}
+        # "returns a separate WBS ... in which every task has a start and an end", for schedulable WBSs: a WBS that belongs to none of
+        # the unschedulable classes C14 lists (spec predicate `c14MustDiagnose`; dead resources by the generator's tag) and that the model
+        # schedules must not be refused
+        if obs['out'] == 'runtime' and out['model']['out'] == 'ok' and not out['hyp'].get('mustDiagnose', False) and not dead_expected(case):
+            mon['schedulableReturns'] = False
         if obs['out'] == 'ok':
             ids_in = [[t['id'], None if t['parent'] is None else case['tasks'][t['parent']]['id']] for t in case['tasks'] if t['member']]
             mon['separate'] = rec.get('separate', True)
